@@ -1,6 +1,6 @@
 CONSTANTS
-  FAMILY = "G2p_2"
-  NODES = 2
+  FAMILY = "G13"
+  NODES = 4
 SPECIFICATION Spec
 INVARIANTS DesignC13 Emit
 CHECK_DEADLOCK FALSE
